@@ -311,9 +311,13 @@ func scenarioShutdown(w *world) {
 			return
 		}
 	}
-	// let readers drain what is readable and observe the closure
+	// let readers drain what is readable and observe the closure (an application that is scheduled late may not
+	// even have accepted its streams yet: what it can still read after the association closed counts as delivered)
 	w.run(func() bool {
 		for _, ep := range w.eps {
+			if !ep.acceptEOF {
+				return false
+			}
 			for _, s := range ep.streams {
 				if !s.readerDone {
 					return false
